@@ -14,6 +14,9 @@ package main
 //	c17.process <dcs> <code> <text>    RpcErrorToNative, then tryToProcessErr on a client whose DC
 //	                                   table is defaultDCList overridden by <dcs> = id:SYM,… | "-"
 //	                                   (SYM ∈ A, B: loopback listeners)
+//	c17.atoi    <text>                 strconv.Atoi(text)           (library model, not judged)
+//	c17.sprintf <format> <operand>     fmt.Sprintf(format, operand) (library model, not judged;
+//	                                   operand = int:<n> | str:<hex>; formats of the modelled subset)
 //
 // The facts the generator and the oracle need (rows, catalogue, default DC list) are read from the
 // JSON written by harness/cmd/c17facts from the same working tree ($C17_FACTS, or c17facts.json
@@ -480,7 +483,7 @@ func c17Gen(g *G) {
 		g.Emit("c17.native "+strconv.Itoa(int(c))+" "+hx("FLOOD_WAIT_"+strconv.Itoa(int(c))), "codes")
 	}
 	// random texts
-	for i, n := 0, g.N(600, 30000); i < n; i++ {
+	for i, n := 0, g.N(4000, 200000); i < n; i++ {
 		t := c17RandText(g)
 		if g.R.Intn(4) == 0 {
 			g.Emit("c17.expand "+hx(t), "random")
@@ -489,7 +492,7 @@ func c17Gen(g *G) {
 		}
 	}
 	// random numbers in every family (digit strings of all lengths around the int64 boundary)
-	for i, n := 0, g.N(300, 10000); i < n; i++ {
+	for i, n := 0, g.N(2000, 100000); i < n; i++ {
 		r := rows[g.R.Intn(len(rows))]
 		l := 1 + g.R.Intn(22)
 		var b strings.Builder
@@ -504,9 +507,66 @@ func c17Gen(g *G) {
 		}
 		g.Emit("c17.native "+strconv.Itoa(int(code()))+" "+hx(r.Prefix+b.String()+r.Suffix), "random-number")
 	}
+	// thorough: every parameter string of length ≤ 4 over a small alphabet, in every row of the source
+	if g.Thorough() {
+		alpha := "09-+_ X%"
+		var all []string
+		var rec func(cur string, k int)
+		rec = func(cur string, k int) {
+			all = append(all, cur)
+			if k == 0 {
+				return
+			}
+			for i := 0; i < len(alpha); i++ {
+				rec(cur+string(alpha[i]), k-1)
+			}
+		}
+		rec("", 4)
+		for _, r := range c17F.Rows {
+			for _, p := range all {
+				g.Emit("c17.expand "+hx(r.Prefix+p+r.Suffix), "exhaustive-param")
+			}
+		}
+	}
+	// the library models: strconv.Atoi and fmt.Sprintf with one operand (modelled subset of verbs)
+	for _, p := range c17Params {
+		g.Emit("c17.atoi "+hx(p), "lib-atoi")
+	}
+	for i, n := 0, g.N(500, 20000); i < n; i++ {
+		l := g.R.Intn(23)
+		var b strings.Builder
+		if g.R.Intn(3) == 0 {
+			b.WriteByte("+-"[g.R.Intn(2)])
+		}
+		for j := 0; j < l; j++ {
+			b.WriteByte(byte('0' + g.R.Intn(10)))
+		}
+		if g.R.Intn(8) == 0 {
+			b.WriteByte("_ xX%-+\x00\xd9"[g.R.Intn(9)])
+		}
+		g.Emit("c17.atoi "+hx(b.String()), "lib-atoi")
+	}
+	for i, n := 0, g.N(400, 10000); i < n; i++ {
+		toks := []string{"%v", "%d", "%s", "%%", "abc", " ", "X", "é", "!", "(", "v", "d"}
+		var b strings.Builder
+		for j, k := 0, g.R.Intn(6); j < k; j++ {
+			b.WriteString(toks[g.R.Intn(len(toks))])
+		}
+		if g.R.Intn(10) == 0 {
+			b.WriteByte('%')
+		}
+		operand := "int:" + strconv.Itoa(g.R.Intn(2000)-1000)
+		switch g.R.Intn(6) {
+		case 0:
+			operand = "str:" + hx(c17RandText(g))
+		case 1:
+			operand = "int:" + []string{"0", "-9223372036854775808", "9223372036854775807", "10", "-1"}[g.R.Intn(5)]
+		}
+		g.Emit("c17.sprintf "+hx(b.String())+" "+operand, "lib-sprintf")
+	}
 	// the decision of tryToProcessErr on a connected client
 	ids := []int{0, 1, 2, 3, 4, 5, 6, 7, -1, 100, 2147483647}
-	for i, n := 0, g.N(40, 400); i < n; i++ {
+	for i, n := 0, g.N(60, 1500); i < n; i++ {
 		id := ids[g.R.Intn(len(ids))]
 		var text, dcs string
 		switch g.R.Intn(8) {
@@ -574,6 +634,23 @@ func c17Exec(op []string) string {
 		return out
 	case len(op) == 4 && op[0] == "c17.process":
 		return c17Process(op[1], code32(op[2]), unhex(op[3]))
+	case len(op) == 2 && op[0] == "c17.atoi":
+		n, err := strconv.Atoi(string(unhex(op[1])))
+		if err != nil {
+			return "err"
+		}
+		return "int:" + strconv.Itoa(n)
+	case len(op) == 3 && op[0] == "c17.sprintf":
+		var operand interface{}
+		switch {
+		case strings.HasPrefix(op[2], "int:"):
+			operand = atoi(op[2][4:])
+		case strings.HasPrefix(op[2], "str:"):
+			operand = string(unhex(op[2][4:]))
+		default:
+			return "bad-op"
+		}
+		return "out=" + hexD([]byte(fmt.Sprintf(string(unhex(op[1])), operand)))
 	}
 	return "bad-op"
 }
@@ -603,6 +680,9 @@ func c17Judge(op []string, out string) string {
 	c17LoadFacts()
 	if len(op) < 2 {
 		return ""
+	}
+	if op[0] == "c17.atoi" || op[0] == "c17.sprintf" {
+		return "" // library models: compared with the Lean model only
 	}
 	if strings.HasPrefix(out, "panic:") {
 		return "panicked (" + out + "): every error text must be delivered as a structured error"
